@@ -1,4 +1,7 @@
 import EaselModel.Dist.ExpThm
+import EaselModel.Dist.GumbelThm
+import EaselModel.Dist.WeiThm
+import EaselModel.Dist.GevThm
 import EaselModel.Dist.Edge
 /-! # C10 — each distribution's pdf, cdf, survival, log and inverse functions agree
 
@@ -66,6 +69,125 @@ theorem exp_outside_support {α : Type} [Add α] [Sub α] [Mul α] [Div α] [Neg
 example : |esl_exp_cdf (1e-9 : ℝ) 0 1 + esl_exp_surv (1e-9 : ℝ) 0 1 - 1| ≤ 2.5e-17 := exp_code_cdf_add_surv (by norm_num) _
 example : esl_exp_cdf (1e-9 : ℝ) 0 1 = 1e-9 := by
   unfold esl_exp_cdf; norm_num
+
+/-! ## Gumbel -/
+
+/-- L2: the Gumbel cdf is non-decreasing, strictly inside `(0,1)`, with limits `0` and `1`. -/
+theorem gumbel_cdf_monotone_0_to_1 {μ l : ℝ} (hl : 0 < l) :
+    Monotone (gumbelCdf μ l) ∧ (∀ x, 0 < gumbelCdf μ l x ∧ gumbelCdf μ l x < 1) ∧
+      Filter.Tendsto (gumbelCdf μ l) Filter.atBot (nhds 0) ∧ Filter.Tendsto (gumbelCdf μ l) Filter.atTop (nhds 1) :=
+  ⟨GumbelThm.gumbelCdf_mono hl.le, fun x => ⟨GumbelThm.gumbelCdf_pos μ l x, GumbelThm.gumbelCdf_lt_one μ l x⟩,
+    GumbelThm.gumbelCdf_tendsto_zero hl, GumbelThm.gumbelCdf_tendsto_one hl⟩
+
+/-- L2: cdf + survival = 1, both inverses invert everywhere, the pdf is the derivative of the cdf everywhere. -/
+theorem gumbel_textbook_laws {μ l : ℝ} (hl : l ≠ 0) (x : ℝ) :
+    gumbelCdf μ l x + gumbelSurv μ l x = 1 ∧ gumbelInvCdf μ l (gumbelCdf μ l x) = x ∧
+      gumbelInvSurv μ l (gumbelSurv μ l x) = x ∧ HasDerivAt (gumbelCdf μ l) (gumbelPdf μ l x) x :=
+  ⟨GumbelThm.gumbelCdf_add_surv μ l x, GumbelThm.gumbelInvCdf_cdf hl x, GumbelThm.gumbelInvSurv_surv hl x,
+    GumbelThm.gumbelCdf_hasDerivAt μ l x⟩
+
+/-- L1: `esl_gumbel_{pdf,cdf,logcdf,logpdf,invcdf}` ARE the textbook functions (resp. their logarithms). -/
+theorem gumbel_code_eq_textbook {l : ℝ} (hl : 0 < l) (x μ : ℝ) :
+    esl_gumbel_pdf x μ l = gumbelPdf μ l x ∧ esl_gumbel_cdf x μ l = gumbelCdf μ l x ∧
+      esl_gumbel_logcdf x μ l = log (gumbelCdf μ l x) ∧ esl_gumbel_logpdf x μ l = log (gumbelPdf μ l x) ∧
+      esl_gumbel_invcdf x μ l = gumbelInvCdf μ l x :=
+  ⟨GumbelThm.code_pdf x μ l, GumbelThm.code_cdf x μ l, GumbelThm.code_logcdf x μ l, GumbelThm.code_logpdf hl x μ,
+    GumbelThm.code_invcdf x μ l⟩
+
+/-- L1: the two-way switch of `esl_gumbel_surv` and the three-way switch of `esl_gumbel_logsurv` at `eslSMALLX1`:
+    within `2.5e-17` of `1 - cdf`, resp. `1e-8` of `log (1 - cdf)`, for every argument. -/
+theorem gumbel_code_surv_switches (x μ l : ℝ) :
+    |esl_gumbel_surv x μ l - gumbelSurv μ l x| ≤ 2.5e-17 ∧ |esl_gumbel_logsurv x μ l - log (gumbelSurv μ l x)| ≤ 1e-8 :=
+  ⟨GumbelThm.code_surv x μ l, GumbelThm.code_logsurv x μ l⟩
+
+/-- L1: repaired `esl_gumbel_invsurv` (`log p` below `eslSMALLX1`, `log(-log(1-p))` above) is within `1e-8 / l` of the
+    textbook inverse survival for every `p > 0` (DESIGN §7 item 4; the former `(p^p - 1)/p` was an L0 defect). -/
+theorem gumbel_code_invsurv {p μ l : ℝ} (hl : 0 < l) (hp : 0 < p) :
+    |esl_gumbel_invsurv p μ l - gumbelInvSurv μ l p| ≤ 1e-8 / l := GumbelThm.code_invsurv hl hp
+
+example : |esl_gumbel_invsurv (1e-12 : ℝ) (-20) 0.7 - gumbelInvSurv (-20) 0.7 1e-12| ≤ 1e-8 / 0.7 :=
+  gumbel_code_invsurv (by norm_num) (by norm_num)
+
+/-! ## Weibull -/
+
+/-- L2: cdf non-decreasing in `[0,1)`, cdf + surv = 1, the inverse inverts on the support. -/
+theorem wei_textbook_laws {μ l τ : ℝ} (hl : 0 < l) (hτ : 0 < τ) :
+    Monotone (weiCdf μ l τ) ∧ (∀ x, 0 ≤ weiCdf μ l τ x ∧ weiCdf μ l τ x < 1) ∧ (∀ x, weiCdf μ l τ x + weiSurv μ l τ x = 1) ∧
+      (∀ x, μ < x → weiInvCdf μ l τ (weiCdf μ l τ x) = x) :=
+  ⟨WeiThm.weiCdf_mono hl hτ.le, fun x => ⟨WeiThm.weiCdf_nonneg μ l τ x, WeiThm.weiCdf_lt_one μ l τ x⟩,
+    WeiThm.weiCdf_add_weiSurv μ l τ, fun _ h => WeiThm.weiInvCdf_weiCdf hl (ne_of_gt hτ) h⟩
+
+/-- L1 (repaired guard, DESIGN §7 item 12): `esl_wei_cdf` within `2.5e-17` of the textbook cdf for EVERY argument — in
+    particular at `y = 1`, where the old guard `|τ log y| < eslSMALLX1` returned `1.0` for `1 - 1/e`; survival, log
+    survival and the inverse are exact; cdf + surv = 1 within `2.5e-17`; `logcdf` within `1e-8` of `log cdf`. -/
+theorem wei_code_eq_textbook (x μ l τ : ℝ) :
+    |esl_wei_cdf x μ l τ - weiCdf μ l τ x| ≤ 2.5e-17 ∧ esl_wei_surv x μ l τ = weiSurv μ l τ x ∧
+      esl_wei_logsurv x μ l τ = log (weiSurv μ l τ x) ∧ esl_wei_invcdf x μ l τ = weiInvCdf μ l τ x ∧
+      |esl_wei_cdf x μ l τ + esl_wei_surv x μ l τ - 1| ≤ 2.5e-17 ∧ (μ < x → |esl_wei_logcdf x μ l τ - log (weiCdf μ l τ x)| ≤ 1e-8) ∧
+      (x ≠ μ → esl_wei_pdf x μ l τ = weiPdf μ l τ x) :=
+  ⟨WeiThm.code_cdf x μ l τ, WeiThm.code_surv x μ l τ, WeiThm.code_logsurv x μ l τ, WeiThm.code_invcdf x μ l τ,
+    WeiThm.code_cdf_add_surv x μ l τ, WeiThm.code_logcdf l τ, WeiThm.code_pdf l τ⟩
+
+/-- the former failing input: `esl_wei_cdf(1, 0, 1, 0.7)` is now within `2.5e-17` of `1 - e⁻¹` -/
+example : |esl_wei_cdf (1 : ℝ) 0 1 0.7 - (1 - exp (-1))| ≤ 2.5e-17 := by
+  have h := (wei_code_eq_textbook 1 0 1 0.7).1
+  have e : weiCdf 0 1 0.7 1 = 1 - exp (-1) := by simp [weiCdf, weiZ]
+  rwa [e] at h
+
+/-- Edge, every carrier: at and below `μ` cdf `0`, surv `1`, `logcdf = -inf`, `logsurv = 0`; below `μ` density `0`. -/
+theorem wei_outside_support {α : Type} [Add α] [Sub α] [Mul α] [Div α] [Neg α] [OfScientific α] [LT α] [LE α]
+    [DecidableLT α] [DecidableLE α] [Num α] {x mu l t : α} :
+    (x ≤ mu → esl_wei_cdf x mu l t = 0.0 ∧ esl_wei_surv x mu l t = 1.0 ∧ esl_wei_logcdf x mu l t = -Num.inf ∧
+      esl_wei_logsurv x mu l t = 0.0) ∧ (x < mu → esl_wei_pdf x mu l t = 0.0 ∧ esl_wei_logpdf x mu l t = -Num.inf) :=
+  ⟨fun h => ⟨Edge.wei_cdf_below h, Edge.wei_surv_below h, Edge.wei_logcdf_below h, Edge.wei_logsurv_below h⟩,
+    fun h => ⟨Edge.wei_pdf_below h, Edge.wei_logpdf_below h⟩⟩
+
+/-! ## Generalised extreme value -/
+
+/-- L2: cdf + surv = 1 and the inverse inverts on the support (`1 + α l (x-μ) > 0`). -/
+theorem gev_textbook_laws {μ l α : ℝ} (hl : l ≠ 0) (hα : α ≠ 0) (x : ℝ) :
+    gevCdf μ l α x + gevSurv μ l α x = 1 ∧ (0 < gevArg μ l α x → gevInvCdf μ l α (gevCdf μ l α x) = x) :=
+  ⟨GevThm.gevCdf_add_gevSurv μ l α x, GevThm.gevInvCdf_gevCdf hl hα⟩
+
+/-- L1, GEV branch (`¬ |α y| < 1e-12`): `esl_gev_cdf` and `esl_gev_pdf` ARE the textbook functions including both
+    out-of-support sides; on the support `logcdf`, `logpdf` are their logarithms; `esl_gev_surv` is within `2.3e-16`
+    of `1 - cdf` (switch at `-½ log DBL_EPSILON`); the inverse is the textbook inverse when `¬ |α| < 1e-12`. -/
+theorem gev_code_eq_textbook {x μ l α : ℝ} (hl : 0 < l) (hg : ¬ |l * (x - μ) * α| < 1e-12) :
+    esl_gev_cdf x μ l α = gevCdf μ l α x ∧ esl_gev_pdf x μ l α = gevPdf μ l α x ∧
+      (0 < gevArg μ l α x → esl_gev_logcdf x μ l α = log (gevCdf μ l α x) ∧ esl_gev_logpdf x μ l α = log (gevPdf μ l α x)) ∧
+      |esl_gev_surv x μ l α - gevSurv μ l α x| ≤ 2.3e-16 ∧ (¬ |α| < 1e-12 → ∀ p, esl_gev_invcdf p μ l α = gevInvCdf μ l α p) :=
+  ⟨GevThm.code_cdf hl hg, GevThm.code_pdf hg, fun h => ⟨GevThm.code_logcdf hg h, GevThm.code_logpdf hl hg h⟩,
+    GevThm.code_surv hl hg, fun h _ => GevThm.code_invcdf h⟩
+
+/-- L1, Gumbel branch (`|α y| < 1e-12`, resp. `|α| < 1e-12` for the inverse): the code is literally the Gumbel code, to
+    which the `gumbel_code_*` theorems apply.
+    `_partial`: the full statement would bound `|Gumbel(y) − GEV_α(y)|` (≈ `1e-12·|y|` relative in the exponent); not proved. -/
+theorem gev_gumbel_branch_partial {x μ l α : ℝ} :
+    (|l * (x - μ) * α| < 1e-12 → esl_gev_cdf x μ l α = esl_gumbel_cdf x μ l ∧ esl_gev_logcdf x μ l α = esl_gumbel_logcdf x μ l ∧
+      esl_gev_pdf x μ l α = esl_gumbel_pdf x μ l ∧ esl_gev_logpdf x μ l α = esl_gumbel_logpdf x μ l) ∧
+    (|α| < 1e-12 → esl_gev_invcdf x μ l α = esl_gumbel_invcdf x μ l) :=
+  ⟨fun h => ⟨GevThm.gumbel_branch_cdf h, GevThm.gumbel_branch_logcdf h, GevThm.gumbel_branch_pdf h, GevThm.gumbel_branch_logpdf h⟩,
+    GevThm.gumbel_branch_invcdf⟩
+
+/-- Edge, every carrier, outside the support (`1 + α y ≤ 0`, GEV branch): Fréchet side (`x < μ`) density `0`, cdf `0`,
+    surv `1`, `logcdf = -inf`, **`logsurv = 0`** (repaired, DESIGN §7 item 13); Weibull side cdf `1`, surv `0`,
+    `logcdf = 0`, `logsurv = -inf`. -/
+theorem gev_outside_support {α : Type} [Add α] [Sub α] [Mul α] [Div α] [Neg α] [OfScientific α] [LT α] [LE α]
+    [DecidableLT α] [DecidableLE α] [Num α] {x mu l a : α}
+    (hg : ¬ Num.fabs (l * (x - mu) * a) < 1.0e-12) (h : 1.0 + a * (l * (x - mu)) ≤ 0.0) :
+    esl_gev_pdf x mu l a = 0.0 ∧ esl_gev_logpdf x mu l a = -Num.inf ∧
+    (x < mu → esl_gev_cdf x mu l a = 0.0 ∧ esl_gev_surv x mu l a = 1.0 ∧ esl_gev_logcdf x mu l a = -Num.inf ∧
+      esl_gev_logsurv x mu l a = 0.0) ∧
+    (¬ x < mu → esl_gev_cdf x mu l a = 1.0 ∧ esl_gev_surv x mu l a = 0.0 ∧ esl_gev_logcdf x mu l a = 0.0 ∧
+      esl_gev_logsurv x mu l a = -Num.inf) :=
+  ⟨Edge.gev_pdf_out hg h, Edge.gev_logpdf_out hg h,
+    fun hx => ⟨Edge.gev_cdf_frechet hg h hx, Edge.gev_surv_frechet hg h hx, Edge.gev_logcdf_frechet hg h hx, Edge.gev_logsurv_frechet hg h hx⟩,
+    fun hx => ⟨Edge.gev_cdf_weibull hg h hx, Edge.gev_surv_weibull hg h hx, Edge.gev_logcdf_weibull hg h hx, Edge.gev_logsurv_weibull hg h hx⟩⟩
+
+/-- non-vacuity at the former failing input `esl_gev_logsurv(-10, 0, 1, 0.5)` (over `ℝ`): the hypotheses hold -/
+example : esl_gev_logsurv (-10 : ℝ) 0 1 0.5 = 0.0 :=
+  (gev_outside_support (x := (-10 : ℝ)) (mu := 0) (l := 1) (a := 0.5) (by simp; norm_num) (by norm_num)).2.2.1
+    (by norm_num) |>.2.2.2
 
 /-! ## Sampling -/
 
